@@ -13,6 +13,7 @@
 import IgrisModel.C01.Refine
 import IgrisModel.C01.Slist
 import IgrisModel.C01.More
+import IgrisModel.C01.Ext3
 namespace Igris.C01
 
 /-- a history of the reference semantics -/
@@ -287,4 +288,293 @@ example (h : HHeap) (r : HList h 0 []) :
   have r2 := hlist_add_front (n := 2) r1 (by simp)
   have r3 := hlist_add_after (n := 3) (p := 2) (pre := []) (post := [1]) r2 (by simp)
   exact hlist_del_member (n := 2) (pre := []) (post := [3, 1]) r3
+end Igris.C01
+
+namespace Igris.C01
+/-! ## EXTENSION: bounded walks on corrupted rings, container_of, entry iteration, `_safe` loops,
+the typed C++ wrapper, the frame property over histories, C++/slist queries (lemmas in Ext*.lean) -/
+
+/-- `dlist_check(fnd, count)` / `dlist_check_reversed` on ANY heap (also a corrupted one): the
+number of steps after which the forward / backward walk first comes back to `fnd`, when that
+happens within `count` steps; -1 when it does not -/
+theorem check_result (h : Heap) (fnd count : Nat) :
+    WalkResult h.next fnd count (dlistCheck h fnd count) ∧
+    WalkResult h.prev fnd count (dlistCheckReversed h fnd count) :=
+  ⟨dlistCheck_result h fnd count, dlistCheckReversed_result h fnd count⟩
+
+/-- `dlist_is_correct(head)` on ANY heap is true iff the forward walk and the backward walk
+both first return to `head` after the same number of steps, fewer than 1000 -/
+theorem is_correct_iff (h : Heap) (hd : Nat) :
+    dlistIsCorrect h hd = true ↔ ∃ n, n < 1000 ∧ FirstHit h.next hd hd n ∧ FirstHit h.prev hd hd n :=
+  isCorrect_iff h hd
+
+/-- a well-formed ring with 1000 or more elements is rejected (converse of `is_correct_on_rings`) -/
+theorem is_correct_false_on_long_rings {h : Heap} {A : Rings} {hd : Nat} {xs : List Nat} (ok : RingsOK h A)
+    (hm : (hd :: xs) ∈ A) (hlen : 1000 ≤ xs.length) : dlistIsCorrect h hd = false := by
+  obtain ⟨a, ys, e, r⟩ := ok.ring _ hm
+  injection e with e1 e2; subst e1; subst e2
+  exact isCorrect_false_of_long r hlen
+
+/-- the four-node heap whose backward links are a copy of the forward links -/
+def corrupt4 : Heap := ⟨fun x => (x + 1) % 4, fun x => (x + 1) % 4⟩
+
+/-- `dlist_is_correct` only compares the two walk lengths: it accepts this ring although no
+neighbour points back (`prev (next 0) = 2`) -/
+theorem is_correct_accepts_corrupt_witness :
+    dlistIsCorrect corrupt4 0 = true ∧ corrupt4.prev (corrupt4.next 0) = 2 := by decide
+
+/-- container_of ∘ member = id and member ∘ container_of = id, for every 64-bit object
+address and every offset (the subtraction wraps) -/
+theorem container_of_member (e p off : Addr) :
+    mcastOut (mcastIn e off) off = e ∧ mcastIn (mcastOut p off) off = p :=
+  ⟨mcastOut_mcastIn e off, mcastIn_mcastOut p off⟩
+
+/-- one object on two lists: its two link members are different nodes, and container_of
+through either member gives back the one object -/
+theorem two_members_one_object (e o1 o2 : Addr) (hne : o1 ≠ o2) :
+    mcastIn e o1 ≠ mcastIn e o2 ∧ mcastOut (mcastIn e o1) o1 = mcastOut (mcastIn e o2) o2 :=
+  ⟨mcastIn_inj_off e o1 o2 hne, by rw [mcastOut_mcastIn, mcastOut_mcastIn]⟩
+
+/-- `dlist_for_each_entry` / `_reverse` through a member at ANY offset visits the objects of the
+list's elements, each exactly once, in order / in reverse order -/
+theorem for_each_entry_visits_objects {h : Heap} {A : Rings} {hd : Nat} {xs : List Nat} (ok : RingsOK h A)
+    (hm : (hd :: xs) ∈ A) (hb : ∀ y ∈ hd :: xs, y < 2 ^ 64) (off : Addr) (fuel : Nat) (hf : xs.length + 1 < fuel) :
+    dlistForEachEntry h fuel (BitVec.ofNat 64 hd) off = xs.map (entryOf off) ∧
+    dlistForEachEntryReverse h fuel (BitVec.ofNat 64 hd) off = xs.reverse.map (entryOf off) := by
+  obtain ⟨a, ys, e, r⟩ := ok.ring _ hm
+  injection e with e1 e2; subst e1; subst e2
+  exact ⟨forEachEntry_ring r hb off fuel hf, forEachEntryReverse_ring r hb off fuel hf⟩
+
+/-- `dlist_first_entry` / `last_entry` / `next_entry` / `prev_entry` are the objects of the
+`next` / `prev` nodes -/
+theorem entry_neighbours (h : Heap) (off : Addr) {p : Nat} (hp : p < 2 ^ 64) :
+    dlistFirstEntry h (BitVec.ofNat 64 p) off = entryOf off (h.next p) ∧
+    dlistLastEntry h (BitVec.ofNat 64 p) off = entryOf off (h.prev p) ∧
+    dlistNextEntry h (entryOf off p) off = entryOf off (h.next p) ∧
+    dlistPrevEntry h (entryOf off p) off = entryOf off (h.prev p) := by
+  refine ⟨?_, ?_, nextEntry_entryOf h off hp, prevEntry_entryOf h off hp⟩
+  · simp [dlistFirstEntry, Heap.nextA, entryOf, ofNat_toNat_small hp]
+  · simp [dlistLastEntry, Heap.prevA, entryOf, ofNat_toNat_small hp]
+
+/-- `dlist_for_each_safe` whose body deletes (`dlist_del_init`) the current element whenever
+`del` says so — for ANY predicate: every element is still visited exactly once, in order; the
+kept elements stay in order, every deleted one is alone, all other rings are untouched -/
+theorem for_each_safe_tolerates_deletion {h : Heap} {hd : Nat} {xs : List Nat} {B : Rings} (del : Nat → Bool)
+    (ok : RingsOK h ((hd :: xs) :: B)) (fuel : Nat) (hf : xs.length < fuel) :
+    (dlistForEachSafe (fun h pos => if del pos then dlistDelInit h pos else h) h fuel hd).2 = xs ∧
+    RingsOK (dlistForEachSafe (fun h pos => if del pos then dlistDelInit h pos else h) h fuel hd).1
+      ((hd :: xs.filter (fun x => !del x)) :: ((xs.filter del).map fun x => [x]) ++ B) := by
+  obtain ⟨⟨a', xs', e, r⟩, _, _⟩ := ok.head
+  injection e with e1 e2; subst e1; subst e2
+  have hn : h.next hd = xs.headD hd := seg_next_headD r.fwd
+  have := forEachSafe_del del _ (fun _ _ _ _ => rfl) hd xs [] B h fuel (by simpa using ok) hf
+  unfold dlistForEachSafe
+  rw [hn]; simpa using this
+
+/-- the C++ erase-while-iterating pattern `cur = it++; if (pred(*cur)) pop(*cur);` -/
+theorem erase_while_iterating {h : Heap} {l : Nat} {xs : List Nat} {B : Rings} (del : Nat → Bool)
+    (ok : RingsOK h ((l :: xs) :: B)) (fuel : Nat) (hf : xs.length < fuel) :
+    (listEraseIf del h fuel l).2 = xs ∧
+    RingsOK (listEraseIf del h fuel l).1
+      ((l :: xs.filter (fun x => !del x)) :: ((xs.filter del).map fun x => [x]) ++ B) := by
+  obtain ⟨⟨a', xs', e, r⟩, _, _⟩ := ok.head
+  injection e with e1 e2; subst e1; subst e2
+  have hn : h.next l = xs.headD l := seg_next_headD r.fwd
+  have hb : DelBody del (fun h pos => if del pos then nodeUnlink h pos else h) := by
+    intro h a ys ra; simp only []; rw [nodeUnlink_eq_delInit ra]
+  have := forEachSafe_del del _ hb l xs [] B h fuel (by simpa using ok) hf
+  unfold listEraseIf dlistForEachSafe
+  rw [hn]; simpa using this
+
+/-- the plain `dlist_for_each` does NOT tolerate it: after `dlist_del_init` of the current
+element `pos->next` is `pos` itself, the loop stays on the deleted node for ever -/
+theorem for_each_unsafe_delete_witness :
+    (forEachUnsafe (fun h p => dlistDelInit h p) 0 6 ring3 (ring3.next 0)).2 = [2, 2, 2, 2, 2, 2] := by decide
+
+/-- typed wrapper: `pop(obj)`, `move_next/prev(obj, node)`, `move_next/prev(obj, iterator)` act on the
+node `&(obj.*member)`; `*it` followed by `.*member` gives back the iterator's node -/
+theorem typed_wrapper_acts_on_member (h : Heap) (off : Addr) {p it : Nat} (hp : p < 2 ^ 64) (hit : it < 2 ^ 64) (node : Nat) :
+    listPop h (entryOf off p) off = nodeUnlink h p ∧
+    listMoveNext h (entryOf off p) off node = nodeMoveNextThan h p node ∧
+    listMovePrev h (entryOf off p) off node = nodeMovePrevThan h p node ∧
+    listMoveNextIt h (entryOf off p) off (BitVec.ofNat 64 it) = nodeMoveNextThan h p it ∧
+    listMovePrevIt h (entryOf off p) off (BitVec.ofNat 64 it) = nodeMovePrevThan h p it := by
+  simp [listPop, listMoveNext, listMovePrev, listMoveNextIt, listMovePrevIt, iterDeref, entryOf, mcastIn_mcastOut,
+    ofNat_toNat_small hp, ofNat_toNat_small hit]
+
+/-- iterators on a well-formed list: `++` then `--` (and `--` then `++`) come back to the same
+iterator, from every position including `end()` -/
+theorem iter_inc_dec {h : Heap} {A : Rings} {r : List Nat} (ok : RingsOK h A) (hr : r ∈ A) :
+    ∀ it ∈ r, iterDec h (iterInc h it) = it ∧ iterInc h (iterDec h it) = it ∧
+      riterDec h (riterInc h it) = it ∧ riterInc h (riterDec h it) = it := by
+  intro it hit
+  obtain ⟨h1, h2, _, _⟩ := neighbours_point_back ok hr it hit
+  exact ⟨h1, h2, h2, h1⟩
+
+/-- `round_left()` moves the first element to the back -/
+theorem round_left_refines {h : Heap} {l x : Nat} {xs : List Nat} {B : Rings}
+    (ok : RingsOK h ((l :: x :: xs) :: B)) : RingsOK (listRoundLeft h l) ((l :: (xs ++ [x])) :: B) := by
+  obtain ⟨⟨a', xs', e, r⟩, _, _⟩ := ok.head
+  injection e with e1 e2; subst e1; subst e2
+  have hn : h.next l = x := by have := r.fwd; simp only [Seg] at this; exact this.1
+  unfold listRoundLeft
+  rw [hn, (cpp_move_eq ok ⟨_, List.mem_cons_self, by simp⟩ ⟨_, List.mem_cons_self, by simp⟩).2]
+  have okr : RingsOK h ((x :: (xs ++ l :: [])) :: B) := by
+    have : RingsOK h (([l] ++ x :: xs) :: B) := by simpa using ok
+    exact this.rotN
+  simpa using moveTail_same okr
+
+/-- C++ `size()` = `circular_size() - 1` and `is_correct()` = (`circular_size() ==
+reverse_circular_size()`) on a well-formed list -/
+theorem cpp_size_is_correct {h : Heap} {A : Rings} {l : Nat} {xs : List Nat} (ok : RingsOK h A)
+    (hm : (l :: xs) ∈ A) (fuel : Nat) (hf : xs.length < fuel) :
+    circularSize h fuel l - 1 = xs.length ∧ circularSize h fuel l = reverseCircularSize h fuel l := by
+  obtain ⟨a, ys, e, r⟩ := ok.ring _ hm
+  injection e with e1 e2; subst e1; subst e2
+  rw [circularSize_ring r fuel hf, reverseCircularSize_ring r fuel hf]
+  exact ⟨by omega, rfl⟩
+
+/-! ### frame: operations on some lists never change the others -/
+
+/-- one step: a ring none of whose members is an argument of the operation is, afterwards,
+still a ring of the family with the same cyclic sequence (the sequence after the operation is
+the sequence before with exactly the specified edit — nothing else moves) -/
+theorem untouched_ring_step {A A' : Rings} {op : Op} (st : AStep A op A') {r : List Nat} (hr : r ∈ A)
+    (ha : ∀ a ∈ op.args, a ∉ r) : ∃ r' ∈ A', SameRing r r' := st.untouched r hr ha
+
+/-- FRAME THEOREM over histories.  Take any ring of the initial family (a list with all its
+elements — e.g. the list threaded through the OTHER link member of the objects) and any
+history of the reference semantics none of whose operations names a node of that ring: after
+the whole history every node of the ring has exactly the `next` and `prev` it had before. -/
+theorem frame_run {h : Heap} {A A' : Rings} {ops : List Op} (ok : RingsOK h A) (run' : ARun A ops A')
+    {r : List Nat} (hr : r ∈ A) (ha : ∀ op ∈ ops, ∀ a ∈ op.args, a ∉ r) :
+    ∀ y ∈ r, (run h ops).next y = h.next y ∧ (run h ops).prev y = h.prev y := by
+  -- the ring survives the abstract history
+  have surv : ∃ r' ∈ A', SameRing r r' := by
+    clear ok
+    induction run' generalizing r with
+    | nil => exact ⟨r, hr, SameRing.refl r⟩
+    | cons st _ ih =>
+      obtain ⟨r1, h1, s1⟩ := st.untouched r hr (ha _ (by simp))
+      obtain ⟨r2, h2, s2⟩ := ih h1 (fun op hop a haa hm => ha op (by simp [hop]) a haa ((s1.1 a).mpr hm))
+      exact ⟨r2, h2, s1.trans s2⟩
+  obtain ⟨r', hr', sr⟩ := surv
+  have ok' := run_refines ok run'
+  have e1 : RingL h r := ok.ring r hr
+  have e2 : RingL (run h ops) r := (sr.2 _).mpr (ok'.ring r' hr')
+  obtain ⟨a, xs, e, ring1⟩ := e1
+  obtain ⟨a', xs', e', ring2⟩ := e2
+  subst e
+  injection e' with ea exs; subst ea; subst exs
+  exact ring_determines_fields ring1 ring2
+
+/-- one object on two lists: the history works on the lists threaded through the member at
+offset `o1`; the list through the member at offset `o2` (ring `r`, made of `o2`-member nodes
+and its head) keeps every link field -/
+theorem two_lists_frame {h : Heap} {A A' : Rings} {ops : List Op} (ok : RingsOK h A) (run' : ARun A ops A')
+    {r : List Nat} (hr : r ∈ A) (ha : ∀ op ∈ ops, ∀ a ∈ op.args, a ∉ r) (e o2 : Addr)
+    (hm : (mcastIn e o2).toNat ∈ r) :
+    (run h ops).next (mcastIn e o2).toNat = h.next (mcastIn e o2).toNat ∧
+    (run h ops).prev (mcastIn e o2).toNat = h.prev (mcastIn e o2).toNat :=
+  frame_run ok run' hr ha _ hm
+
+/-! ### what the reference semantics does NOT admit (Linux-style contract) -/
+
+/-- `run_refines` under its real name: the histories are those the reference semantics admits;
+C `dlist_add_next/prev`, `dlist_insert_instead(iter, ·)` and `dlist_move_sorted(added, ·)` of an
+entry that is currently LINKED are not admitted (contract of the Linux list API; the C++
+`move_next_than/move_prev_than` and C `dlist_move/_tail` unlink first and ARE admitted for linked
+nodes, see `cmoveSame/cmoveOther`).  `add_linked_witness` shows what the code does there. -/
+theorem run_refines_partial {h : Heap} {A A' : Rings} {ops : List Op} (ok : RingsOK h A) (r : ARun A ops A') :
+    RingsOK (run h ops) A' := run_refines ok r
+
+/-- `dlist_add_next(1, 0)` on the ring 0 → 2 → 1 with node 1 still linked: afterwards
+1 → 2 → 1 is a cycle that no longer contains the head; a traversal from 0 never returns -/
+theorem add_linked_witness :
+    (dlistAddNext ring3 1 0).next 0 = 1 ∧ (dlistAddNext ring3 1 0).next 1 = 2 ∧ (dlistAddNext ring3 1 0).next 2 = 1 ∧
+    (dlistToList (dlistAddNext ring3 1 0) 50 0).length = 50 := by decide
+
+/-- an unlinked / del_init'ed / destroyed node (a ring of its own) is reachable from no other
+list: no member of another ring points at it -/
+theorem unlinked_unreachable {h : Heap} {a : Nat} {B : Rings} (ok : RingsOK h ([a] :: B)) :
+    ∀ r ∈ B, ∀ y ∈ r, h.next y ≠ a ∧ h.prev y ≠ a := by
+  intro r hr y hy
+  obtain ⟨_, d, _⟩ := ok.head
+  obtain ⟨_, _, hn, hp⟩ := neighbours_point_back ok (List.mem_cons_of_mem _ hr) y hy
+  exact ⟨fun e => d r hr a (by simp) (e ▸ hn), fun e => d r hr a (by simp) (e ▸ hp)⟩
+
+/-! ### slist / hlist: initialisation, queries, other lists untouched -/
+
+/-- `slist_init` / `igris::slist()` make an empty list; `hlist_head_init` too -/
+theorem list_init_empty (sh : SHeap) (hh : HHeap) (a : Nat) :
+    SRing (slistInit sh a) a [] ∧ HList (hlistHeadInit hh a) a [] :=
+  ⟨slistInit_ring sh a, ⟨by simp, by simp [HChain, hlistHeadInit, HHeap.read, HHeap.write]⟩⟩
+
+/-- `slist_size`, `slist_in`, `slist_empty` agree with the reference sequence -/
+theorem slist_queries_agree (h : SHeap) (head : Nat) (xs : List Nat) (r : SRing h head xs) (fuel : Nat)
+    (hf : xs.length + 1 < fuel) :
+    slistSize h fuel head = xs.length ∧ (∀ x, slistIn h fuel head x = true ↔ x ∈ xs) ∧
+    (slistEmpty h head = true ↔ xs = []) := by
+  have h1 := slistToList_ring h head xs r fuel hf
+  refine ⟨by simp [slistSize, h1], fun x => by simp [slistIn, h1], ?_⟩
+  unfold slistEmpty
+  cases xs with
+  | nil => have := r.fwd; simp only [Seg] at this; simp [this]
+  | cons x xs =>
+    have := r.fwd; simp only [Seg] at this
+    have hne : x ≠ head := by
+      have := r.nodup; simp only [List.nodup_cons, List.mem_cons, not_or] at this
+      exact fun e => this.1.1 e.symm
+    simp [this.1, hne]
+
+/-- slist frame: `slist_add`, `slist_pop_first`, `move_front` on the list `head` leave every
+other list (disjoint from the written nodes) exactly as it was -/
+theorem slist_other_lists_untouched (h : SHeap) (head head2 n : Nat) (xs ys : List Nat) (r : SRing h head xs)
+    (r2 : SRing h head2 ys) (hd : ∀ y ∈ head2 :: ys, y ∉ n :: head :: xs) (fuel : Nat) (hf : xs.length < fuel) :
+    SRing (slistAdd h n head) head2 ys ∧ SRing (slistPopFirst h head).1 head2 ys ∧
+    SRing (slistMoveFront h fuel n head) head2 ys := by
+  refine ⟨r2.congr ?_, r2.congr ?_, r2.congr ?_⟩
+  · intro y hy
+    have := hd y hy; simp only [List.mem_cons, not_or] at this
+    exact slistAdd_frame h n head y this.1 this.2.1
+  · intro y hy
+    have := hd y hy; simp only [List.mem_cons, not_or] at this
+    exact slistPopFirst_frame h head y this.2.1
+  · intro y hy
+    exact slistMoveFront_frame h head n xs r fuel hf y (hd y hy)
+
+/-- lists 0 = [2] and 1 = [] -/
+def twoSlists : SHeap := slistAdd (slistInit (slistInit ⟨id⟩ 0) 1) 2 0
+
+/-- `igris::slist::move_front(n)` of a node that is linked in ANOTHER slist (a singly linked
+node cannot know its owner; the repaired code unlinks from THIS list only): list 1 gets the
+node, but list 0 is corrupted — its traversal runs 2 → 1 → 2 → … and never returns to head 0.
+Contract: `move_front` wants a node of this list or of no list (finding
+C01-slist-move-front-foreign). -/
+theorem slist_move_front_foreign_witness :
+    slistToList (slistMoveFront twoSlists 10 2 1) 10 1 = [2] ∧
+    slistToList (slistMoveFront twoSlists 10 2 1) 8 0 = [2, 1, 2, 1, 2, 1, 2, 1] := by decide
+
+/-- hlist frame for insertion (for removal see `hlist_other_lists_untouched`) -/
+theorem hlist_add_other_lists_untouched {h : HHeap} {l2 n : Nat} {ys : List Nat} (L : Loc) (r2 : HList h l2 ys)
+    (hL : L ≠ .nodeNext n) (hn : n ∉ ys) (h1 : L ≠ .headFirst l2) (h2 : ∀ y ∈ ys, L ≠ .nodeNext y)
+    (h3 : ∀ y ∈ ys, h.read L ≠ some y) : HList (hlistAddNext h n L) l2 ys :=
+  hlist_frame_add L r2 hL hn h1 h2 h3
+
+-- non-vacuity
+example : RingsOK ring3 [[0, 2, 1]] := by
+  refine ⟨?_, by simp⟩
+  intro r hr; simp at hr; subst hr
+  exact ⟨0, [2, 1], rfl, ⟨by decide, by simp only [Seg]; decide, by decide⟩⟩
+example : ARun [[0, 2, 1], [5]] [.cmove 2 0, .cdelInit 1] [[1], [0, 2], [5]] := by
+  refine .cons (.cmoveSame (l := 2) (pre := [1]) (head := 0) (post := []) (B := [[5]])
+    (.rot (l1 := [0]) (b := 2) (l2 := [1]) (B := [[5]]))) ?_
+  refine .cons (.cdelInit (a := 1) (x := 0) (xs := [2]) (B := [[5]])
+    (.rot (l1 := [0, 2]) (b := 1) (l2 := []) (B := [[5]]))) ?_
+  exact .nil _
+example : FirstHit ring3.next 0 0 2 ∧ FirstHit ring3.prev 0 0 2 := by
+  refine ⟨⟨by decide, ?_⟩, ⟨by decide, ?_⟩⟩ <;> intro j hj <;> (have : j = 0 ∨ j = 1 := by omega) <;>
+    rcases this with rfl | rfl <;> decide
+example : SRing twoSlists 0 [2] ∧ SRing twoSlists 1 [] :=
+  ⟨⟨by decide, by simp only [Seg]; decide⟩, ⟨by decide, by simp only [Seg]; decide⟩⟩
 end Igris.C01
